@@ -20,8 +20,14 @@ HARNESS = {
             'call': 'check_c09(&buf[..len], idx, little)', 'unwind': 6},
     'c09_len': {'args': [('buf', 'u8x24'), ('len', 'usize'), ('little', 'bool')], 'bound': 'table <= 24 bytes (u32 entries and Rel/ELF32 entries)', 'assume': 'len <= 24',
                 'call': 'check_c09_len(&buf[..len], little)', 'unwind': 2},
-    'c14': {'args': [('buf', 'u8x32'), ('len', 'usize'), ('align_sel', 'u8'), ('elf64', 'bool'), ('little', 'bool')], 'bound': 'note bytes <= 32, alignment in {0,1,2,3,4,8,16}, first two notes',
-            'assume': 'len <= 32', 'call': 'check_c14(&buf[..len], align_sel, elf64, little)', 'unwind': 9},
+    'c14_a0': {'args': [('buf', 'u8x28'), ('len', 'usize'), ('elf64', 'bool'), ('little', 'bool')], 'bound': 'note bytes <= 28, alignment 0, first two notes',
+               'assume': 'len <= 28', 'call': 'check_c14(&buf[..len], 0, elf64, little)', 'unwind': 8},
+    'c14_a4': {'args': [('buf', 'u8x28'), ('len', 'usize'), ('elf64', 'bool'), ('little', 'bool')], 'bound': 'note bytes <= 28, alignment 4, first two notes',
+               'assume': 'len <= 28', 'call': 'check_c14(&buf[..len], 3, elf64, little)', 'unwind': 8},
+    'c14_a8': {'args': [('buf', 'u8x28'), ('len', 'usize'), ('elf64', 'bool'), ('little', 'bool')], 'bound': 'note bytes <= 28, alignment 8, first two notes',
+               'assume': 'len <= 28', 'call': 'check_c14(&buf[..len], 4, elf64, little)', 'unwind': 8},
+    'c14_a1': {'args': [('buf', 'u8x28'), ('len', 'usize'), ('elf64', 'bool'), ('little', 'bool')], 'bound': 'note bytes <= 28, alignment 1, first two notes',
+               'assume': 'len <= 28', 'call': 'check_c14(&buf[..len], 1, elf64, little)', 'unwind': 8},
     'c03_range': {'args': [('off', 'u64'), ('size', 'u64'), ('memsz', 'u64'), ('nobits', 'bool')], 'bound': 'one 60-byte ELF32/LE file; all offsets, sizes, p_memsz', 'assume': 'true',
                   'call': 'check_c03_range(off, size, memsz, nobits)', 'unwind': 9},
     'c13_need': {'args': [('buf', 'u8x40'), ('len', 'usize'), ('count', 'u8'), ('start', 'u8'), ('little', 'bool')], 'bound': 'section bytes <= 40, count and start offset < 256, first two records',
@@ -187,20 +193,35 @@ PAIRING = [
     (r'^C09\.(get\.|next\.|iter)', lambda m: 'c09'),
     (r'^C10\.(verify_ident|parse_ident|from_ei_data)\.', lambda m: 'c10'),
     (r'^(C12\.sysv_hash|C11\.gnu_hash|proof:hash::sysv_hash|proof:hash::gnu_hash)', lambda m: 'hash'),
-    (r'^C14\.(note|iter)\.', lambda m: 'c14'),
+    (r'^C14\.(note|iter)\.', lambda m: ['c14_a4', 'c14_a8', 'c14_a0', 'c14_a1']),
     (r'^C03\.(section_range|segment_range|section_data|segment_data)\.', lambda m: 'c03_range'),
     (r'^C1[36]\.VerNeedIterator\.next\.', lambda m: 'c13_need'),
     (r'^C1[36]\.VerDefIterator\.next\.', lambda m: 'c13_def'),
     (r'^C02\.parse_at\.[a-z_]+@ParseAt for (\w+)::parse_at$', lambda m: 'c02_' + m.group(1).lower()),
     (r'^C02\.size_for@ParseAt for (\w+)::size_for$', lambda m: 'c02_' + m.group(1).lower()),
 ]
-def harness_for(obligation):
+def harnesses_for(obligation):
+    """the bounded harnesses paired with an obligation (a pairing may name several, e.g. one per note alignment)"""
     for pat, f in PAIRING:
         m = re.match(pat, obligation)
         if m:
-            h = f(m)
-            return h if (h in HARNESS or h in struct_harnesses()) else None
-    return None
+            hs = f(m)
+            hs = hs if isinstance(hs, list) else [hs]
+            return [h for h in hs if (h in HARNESS or h in struct_harnesses())]
+    return []
+def harness_for(obligation):
+    hs = harnesses_for(obligation)
+    return hs[0] if hs else None
+def search_any(obligation, timeout=420):
+    """try the paired harnesses in turn; the first failing input that replays wins, otherwise the last result (with all statuses)"""
+    last = None; notes = []
+    for h in harnesses_for(obligation):
+        r = dict(search(h, timeout=timeout), harness=h)
+        notes.append('%s: %s' % (h, r.get('status')))
+        last = r
+        if r.get('status') == 'replayed-fails': break
+    if last is not None: last['harnesses_tried'] = notes
+    return last
 
 if __name__ == '__main__':
     r = search(sys.argv[1])
